@@ -164,3 +164,27 @@ Theorem C09_model_matches_oracle : forall n cp en en' o st ve tr,
     CtlProgFacts.Rel en' st' /\ CtlProgFacts2.venv_rel en' ve' /\ CtlProgFacts.same_ctl st st'.
 Proof. exact CtlProgFacts2.model_matches_oracle. Qed.
 Print Assumptions C09_model_matches_oracle.
+
+(* ---- whole programs with for, catch and foreach (Proofs/CtlProgFacts3.v) ----
+   The statement language above extended with `for {init} {cond} {next} {body}` (init and next are
+   blocks; `continue` runs next, `break` skips it), `set v [catch {body}]` (v receives 0, 1, 3 or 4
+   for ok / error / break / continue; the environment is as the body left it) and
+   `foreach v {z1 z2 ...} {body}` over a literal list of integers.  Same shape of statement as
+   C09_whole_program.  Procedures are not covered by a whole-program theorem (tested only). *)
+From Molt Require Proofs.CtlProgFacts3.
+
+Theorem C09_whole_program_for_catch_foreach : forall n p en en' o st,
+  CtlProgFacts3.run2 n en p = (en', o) -> o <> CtlProgFacts.OFuel -> CtlProgFacts3.wf_block2 p = true ->
+  CtlProgFacts.Rel en st -> CtlProgFacts3.cmds_ok2 st ->
+  (i_levels st + 1 + CtlProgFacts3.depth_block2 p <= i_limit st)%N ->
+  exists F, forall fuel, (F <= fuel)%nat ->
+  exists st' r, eval std_uni fuel st (CtlProgFacts3.render_block2 p) = (st', r) /\
+                CtlProgFacts.res_ok (CtlProgFacts.finish (i_levels st =? 0)%N o) r /\
+                CtlProgFacts.Rel en' st' /\ CtlProgFacts.same_ctl st st'.
+Proof. exact CtlProgFacts3.run_agrees2. Qed.
+Print Assumptions C09_whole_program_for_catch_foreach.
+
+Theorem C09_whole_program_for_catch_foreach_nonvacuous :
+  CtlProgFacts3.cmds_ok2 interp_new /\ CtlProgFacts.Rel [] interp_new.
+Proof. exact (conj CtlProgFacts3.cmds_ok2_new CtlProgFacts.Rel_new). Qed.
+Print Assumptions C09_whole_program_for_catch_foreach_nonvacuous.
